@@ -231,6 +231,9 @@ func runC14(c *Ctx) {
 		}
 	}
 	c.Floor("buffer-ownership", 5)
+	// JSON round trip: name, capacity and contents carried both ways; decode target fresh
+	marshalerSymmetryRule(c, "json-symmetry", func(m marshalerSpec) bool { return m.typ == "Buffer" })
+	c.Floor("json-symmetry", 1)
 }
 
 // HasLenOf reports whether the atom is a len(...) of its path.
